@@ -5,7 +5,10 @@ Stage B (correspondence with the Lean model Ptn.C19):
     child order, per-node leg order as axes of the input tensors, left/right node lists);
   * `grid rows cols`      pair list of `_find_nn_pairs(_grid_from_structure(..))`;
   * `ising <id:parent..>` term list of `ising_model(TreeStructure)`; `isinggrid rows cols` for the 2-D builder;
-  * `qrshape` / `fromtensor` leg bookkeeping of `TTNO.from_tensor`.
+  * `qrshape` / `fromtensor` leg bookkeeping of `TTNO.from_tensor`;
+  * `star` / `starconst` / `fork` / `forkconst` / `binary`: dict order, parent, child order, per-node leg order and
+    shapes of the star, fork and binary constructors, including arbitrary (mostly invalid) call sequences that
+    library and model must accept or reject alike.
 Stage C (oracle): well-formedness, documented identifiers and an independent dense contraction
 (einsum over the *specified* tensors / Kronecker sums built from the adjacency) for every constructor.
 """
@@ -35,11 +38,17 @@ RULE = ("cases: matrix-product chains of every length 2..8 x every root x open-l
 PARTIAL = [
     "value-level faithfulness (tensor contents, zero padding of bonds, product-state values, operator matrices) is "
     "decided per input by the dense oracle; the Lean theorems cover the index logic only: chain structure and leg "
-    "order (mps_chain_structure), grid pair list (nn_pairs_grid), Ising term multisets (ising_terms, "
-    "ising_pairs_terms), transposition and leg bookkeeping of from_tensor (qr_shape_perm, from_tensor_legs)",
+    "order (mps_chain_structure), star / fork / binary structure and leg order (star_structure, fork_structure, "
+    "binary_structure), grid pair list (nn_pairs_grid), Ising term multisets (ising_terms, ising_pairs_terms), "
+    "transposition and leg bookkeeping of from_tensor (qr_shape_perm, from_tensor_legs)",
     "numerical exactness of the QR/SVD factorisations inside TTNO.from_tensor is by contract (contraction compared "
-    "with the input to 1e-9 on every case); bond dimensions and leg dimensions are not modelled",
-    "star, fork and binary-tree constructors and the exact dense builders have no Lean model: dense oracle only",
+    "with the input to 1e-9 on every case); bond / leg dimensions of chains and of from_tensor are not modelled "
+    "(star, fork and binary models do carry the shapes and the dimension check of add_child_to_parent)",
+    "star_structure and fork_structure are stated for the call sequences the code accepts; that the particular "
+    "sequences of star constant_product_state and constant_ftps ARE accepted for all parameters is not proved "
+    "(star_const_structure_partial, ftps_structure_partial are conditional) - completion is checked by the "
+    "correspondence and the oracle on the parameter grid; binary_structure includes completion",
+    "the exact dense builders have no Lean model: dense oracle only",
     "F-C19a: the 2-D Ising builders omit the field term on a 1x1 grid; theorem ising_grid_terms_partial assumes "
     "rows*cols >= 2, theorem ising_grid_1x1_empty is the witness of the negation",
 ]
